@@ -4,10 +4,14 @@ go 1.18
 
 require (
 	github.com/go-logr/logr v1.2.2
+	github.com/go-logr/stdr v1.2.2
 	github.com/google/uuid v1.2.0
 	github.com/ovn-org/libovsdb v0.0.0
 )
 
-require github.com/go-logr/stdr v1.2.2 // indirect
+require (
+	github.com/cenkalti/hub v1.0.1 // indirect
+	github.com/cenkalti/rpc2 v0.0.0-20210604223624-c1acbc6ec984 // indirect
+)
 
 replace github.com/ovn-org/libovsdb => /repo
